@@ -1,7 +1,7 @@
 \* C11 decision table, exhaustive: 3 victim states x every request of the finite
-\* domain (public: 4 methods x 6 path shapes x 4 targets x 5 credentials x 2 basic;
+\* domain (public: 4 methods x 6 path shapes x 5 targets x 5 credentials x 2 basic;
 \* private: 3 methods x 22 paths x 4 basic (+ session secret without password)).
 SPECIFICATION Spec
-INVARIANTS TypeOK EffectNeedsSecret PrivateNeedsPassword PasswordIsNoSecret
+INVARIANTS TypeOK EffectNeedsSecret PrivateNeedsPassword PasswordIsNoSecret RefusedIsNot2xx
 POSTCONDITION Export
 CHECK_DEADLOCK FALSE
